@@ -16,7 +16,7 @@ func init() {
 		ID:       "C14",
 		Category: "fault_enumeration",
 		Rule: "operation sequences S over {Write(piece), Flush, Close}: length <=2 over pieces {small, 10 KB, fill, >64 KiB} (quick); thorough: length <=3 over {small, 10 KB, fill} and length <=2 over those plus >64 KiB and 200 KB incompressible; N(S) = destination calls of the fault-free run; " +
-			"for EVERY k in 1..N(S) the k-th destination call fails with a fresh error value, accepting 0 or len/2 bytes; then every continuation of length <=2 (<=1 when k>2 in quick, k>6 in thorough) over {W(small), W(fill), Flush, Close}; " +
+			"header variants (zlib with dictionary, gzip with extra/name/comment, flate with dictionary) over {small, 10 KB}; for EVERY k in 1..N(S) the k-th destination call fails with a fresh error value, accepting 0 or len/2 bytes; then every continuation of length <=2 (<=1 when k>2 in quick, k>6 in thorough) over {W(small), W(fill), Flush, Close}; " +
 			"oracle: the operation in progress returns exactly that error, every later call returns a non-nil error and makes no destination call, no panic, guard zones intact, Reset revives the Writer; " +
 			"non-trivial = the injected failure was reached (k <= N(S)); distinct = distinct (setting, S, k, short-count, continuation)",
 		Assumptions: []string{"the destination reports failure through its error result (a short count with a nil error is outside the statement)"},
@@ -37,6 +37,11 @@ func c14Harness(cfg *Cfg) func(x *mc.Exec) {
 			{Kind: "flate4k", Level: 1}, {Kind: "flate4k", Level: 2}, {Kind: "flate4k", Level: -2}, {Kind: "flate", Level: 0}, {Kind: "flate", Level: 6}}
 		kinds = append(kinds, containerKinds([]int{-2, 1, 6})...)
 	}
+	// header variants: the container header goes out in more destination calls (zlib DICTID; gzip extra, name, comment).
+	// What is new in them is the header path, so their sequences use the two small pieces only.
+	firstHdr := len(kinds)
+	kinds = append(kinds, WK{Kind: "zlibdict", Level: 1, Dict: dict20}, WK{Kind: "zlibdict", Level: -2, Dict: dict20}, WK{Kind: "zlibdict", Level: 6, Dict: dict20},
+		WK{Kind: "flatedict", Level: 1, Dict: dict20}, WK{Kind: "gzip", Level: 1, Hdr: true}, WK{Kind: "gzip", Level: 6, Hdr: true})
 	d := 2
 	if cfg.Thorough {
 		d = 3
@@ -68,8 +73,13 @@ func c14Harness(cfg *Cfg) func(x *mc.Exec) {
 		// the sequence S. Thorough tier: depth 3 over the small alphabet {small, 10K, fill, Flush, Close}, depth 2 over the full one.
 		var S []int
 		nps, depth := len(ps), d
+		if ki >= firstHdr {
+			nps = 2
+		}
 		if cfg.Thorough {
-			if x.Choose(2, "alphabet") == 0 {
+			if ki >= firstHdr {
+				depth = 3
+			} else if x.Choose(2, "alphabet") == 0 {
 				nps, depth = 3, 3
 			} else {
 				depth = 2
@@ -232,7 +242,7 @@ func c14Harness(cfg *Cfg) func(x *mc.Exec) {
 			}
 			return
 		}
-		if cls, msg := CheckStream(k, ns.Buf, small); cls != "" {
+		if cls, msg := CheckStream(k, ns.Buf, small); cls != "" && !(k.Dict != nil && cls == "dict-prepended") {
 			x.Fail("C14 stream-after-reset "+tag+" "+cls, "%s [%s]: %s", k, r.hist, msg)
 			return
 		}
